@@ -170,7 +170,8 @@ Proof. exact line_integral. Qed.
 (* the classes whose marginal cost is continuous everywhere: Device, PVDevice, CDevice, CDevice2 (one range), IDevice
    (natural exponents), IDevice2, GDevice - for ANY two flows of the right length (in bounds or not), any price.
    SDevice: below, at every flow off the charge/discharge kink and along every segment that does not cross it.
-   TDevice: likewise below.  CDevice2 with several ranges: total derivative below.  PARTIAL for ADevice: only the coordinate form is proved (the general theorem
+   TDevice: likewise below.  CDevice2 with several ranges and ADevice over every composition of the function AST: total derivative below (the line integral for
+   these two is the general theorem C01_line_integral_general applied to them; not instantiated) (the general theorem
    applies once continuity of their marginal cost is shown, which is not done here). *)
 Theorem C01_total_derivative_smooth_classes : forall n b cb k (p x : list R), length p = n -> length x = n -> smooth_kind k cb n ->
   dir_at (fun s => leaf_cost (Build_leafdev n b cb k) s p) (leaf_deriv (Build_leafdev n b cb k) x p) x.
@@ -240,3 +241,17 @@ Proof. exact @ranged_dir. Qed.
 Theorem C01_cdevice2_total_derivative_any_ranges : forall n b cbs pl ph (x p : list R), length x = n -> length p = n -> cb_chain cbs n ->
   dir_at (fun s => leaf_cost (Build_leafdev n b cbs (KC2 pl ph)) s p) (leaf_deriv (Build_leafdev n b cbs (KC2 pl ph)) x p) x.
 Proof. exact cdevice2_multi_total. Qed.
+
+(* ---- every composition of the preference-function AST (hence ADevice): total derivative, by induction on the AST with directional
+   building blocks - separable sums need no continuity argument, ranges as above, the peak index is locally constant. Proofs/FnTotal.v ---- *)
+From DK.Proofs Require Import FnTotal.
+Theorem C01_function_ast_total_derivative : forall (f : fn R) (x : list R),
+  wf_fn f (length x) -> smooth_fn f x -> dir_at (feval f) (fderiv f x) x.
+Proof. exact fn_dir. Qed.
+Theorem C01_adevice_total_derivative : forall n b cb f ucs (x p : list R), length x = n -> length p = n -> wf_fn f n -> smooth_fn f x ->
+  dir_at (fun s => leaf_cost (Build_leafdev n b cb (KA f ucs)) s p) (leaf_deriv (Build_leafdev n b cb (KA f ucs)) x p) x.
+Proof. exact adevice_total_derivative. Qed.
+Theorem C01_separable_sum_total_derivative : forall (phi dphi : nat -> R -> R) (x : list R),
+  (forall k, (k < length x)%nat -> is_derive (phi k) (nth k x 0) (dphi k (nth k x 0))) ->
+  dir_at (fun y => vsum (map (fun '(i, v) => phi i v) (idx y))) (map (fun '(i, v) => dphi i v) (idx x)) x.
+Proof. exact dir_sepsum. Qed.
